@@ -1,6 +1,8 @@
 import GqlVerif.Props.C12
 import GqlVerif.Proofs.C12Items
 import GqlVerif.Proofs.C12FrontEnds
+import GqlVerif.Proofs.C12ModuleWitness
+import GqlVerif.Proofs.C12ModuleFrontEnds
 open GqlVerif.C12
 #print axioms dfs_sound
 #print axioms dfs_complete
@@ -40,3 +42,24 @@ open GqlVerif.C12
 #print axioms GqlVerif.C12FE.dup_input_not_wf
 #print axioms GqlVerif.C12FE.dup_input_intro_not_wf
 #print axioms GqlVerif.C12FE.kw_collision
+-- by-value acyclicity of the WHOLE emitted module, Variables included (docs/REVIEW_3.md finding 5; Proofs/C12Module*.lean, P44)
+#print axioms GqlVerif.C12Mod.acyclic_append
+#print axioms GqlVerif.C12Mod.leaf_items_acyclic
+#print axioms GqlVerif.C12Mod.leaf_refs
+#print axioms GqlVerif.C12Mod.inputItems_refs
+#print axioms GqlVerif.C12Mod.variablesItems_refs
+#print axioms GqlVerif.C12Mod.module_items_acyclic
+#print axioms GqlVerif.C12Mod.respNamesOk_of_noClash
+#print axioms GqlVerif.C12Mod.module_items_acyclic_of_noClash
+#print axioms GqlVerif.C12Mod.variables_self_loop
+#print axioms GqlVerif.C12Mod.input_named_Variables_cyclic
+#print axioms GqlVerif.C12Mod.extern_enum_Variables_cyclic
+#print axioms GqlVerif.C12Mod.input_field_Variables_cyclic
+#print axioms GqlVerif.C12Mod.input_named_bool_cyclic
+#print axioms GqlVerif.C12Mod.recursive_input_and_fragment_acyclic
+#print axioms GqlVerif.C12Mod.rich_hyps
+#print axioms GqlVerif.C12Mod.module_items_acyclic_of_sdl
+#print axioms GqlVerif.C12Mod.module_items_acyclic_of_intro
+#print axioms GqlVerif.C12Mod.module_items_acyclic_of_json
+#print axioms GqlVerif.C12Mod.fixedNamesFree_of_namesFree
+#print axioms GqlVerif.C12Mod.module_items_acyclic_of_sdl_names
